@@ -1,6 +1,65 @@
+mod ctx;
+mod gen;
+mod ops;
+mod opt;
+mod oracle;
+mod props_a;
+mod props_b;
+mod props_c;
 mod proto;
 mod rng;
 mod tables;
+
+use ctx::Ctx;
+
+fn jstr(s: &str) -> String {
+    let mut o = String::from("\"");
+    for c in s.chars() {
+        match c {
+            '"' => o.push_str("\\\""),
+            '\\' => o.push_str("\\\\"),
+            '\n' => o.push_str("\\n"),
+            '\r' => o.push_str("\\r"),
+            '\t' => o.push_str("\\t"),
+            c if (c as u32) < 0x20 => o.push_str(&format!("\\u{:04x}", c as u32)),
+            c => o.push(c),
+        }
+    }
+    o.push('"');
+    o
+}
+
+fn arg<'a>(args: &'a [String], name: &str) -> Option<&'a str> {
+    args.iter().position(|a| a == name).and_then(|i| args.get(i + 1)).map(|s| s.as_str())
+}
+
+fn run_prop(ctx: &mut Ctx) -> bool {
+    match ctx.prop.as_str() {
+        "C01" => props_b::c01(ctx),
+        "C02" => props_b::c02(ctx),
+        "C03" => props_c::c03(ctx),
+        "C04" => props_c::c04(ctx),
+        "C05" => props_b::c05(ctx),
+        "C06" => props_a::c06(ctx),
+        "C07" => props_a::c07(ctx),
+        "C08" => props_b::c08(ctx),
+        "C09" => props_b::c09(ctx),
+        "C10" => props_a::c10(ctx),
+        "C11" => props_a::c11(ctx),
+        "C12" => props_a::c12(ctx),
+        "C13" => props_b::c13(ctx),
+        "C14" => props_b::c14(ctx),
+        "C15" => props_b::c15(ctx),
+        "C16" => props_b::c16(ctx),
+        "C17" => props_b::c17(ctx),
+        "C18" => props_a::c18(ctx),
+        "C19" => props_a::c19(ctx),
+        "C20" => props_b::c20(ctx),
+        _ => return false,
+    }
+    ctx.flush();
+    true
+}
 
 fn main() {
     let args: Vec<String> = std::env::args().collect();
@@ -8,8 +67,65 @@ fn main() {
         Some("gen-tables") => {
             tables::gen_tables(&args[2]).expect("gen-tables");
         }
+        Some("run") => {
+            let prop = arg(&args, "--prop").expect("--prop");
+            let thorough = arg(&args, "--tier") == Some("thorough");
+            let seed: u64 = arg(&args, "--seed").and_then(|s| s.parse().ok()).unwrap_or(1);
+            let driver = arg(&args, "--driver").expect("--driver");
+            let out = arg(&args, "--out").expect("--out");
+            // known-finding classes: lines `finding: property=Cxx class=KF-n …`
+            let mut known: Vec<(String, String)> = Vec::new();
+            if let Some(kf) = arg(&args, "--known") {
+                if let Ok(s) = std::fs::read_to_string(kf) {
+                    for l in s.lines() {
+                        if let Some(rest) = l.strip_prefix("finding:") {
+                            let mut p = None;
+                            let mut c = None;
+                            for tok in rest.split_whitespace() {
+                                if let Some(v) = tok.strip_prefix("property=") { p = Some(v.to_string()); }
+                                if let Some(v) = tok.strip_prefix("class=") { c = Some(v.to_string()); }
+                            }
+                            if let (Some(p), Some(c)) = (p, c) { known.push((p, c)); }
+                        }
+                    }
+                }
+            }
+            std::panic::set_hook(Box::new(|_| {}));
+            // watchdog: a hang is a violation of totality; report and die
+            let t0 = std::time::Instant::now();
+            let limit: u64 = arg(&args, "--timeout").and_then(|s| s.parse().ok()).unwrap_or(3000);
+            std::thread::spawn(move || loop {
+                std::thread::sleep(std::time::Duration::from_secs(5));
+                if t0.elapsed().as_secs() > limit {
+                    eprintln!("twharness: watchdog timeout after {} s", limit);
+                    std::process::exit(3);
+                }
+            });
+            let mut ctx = Ctx::new(prop, thorough, seed, driver, known);
+            if !run_prop(&mut ctx) {
+                eprintln!("unknown property {}", prop);
+                std::process::exit(2);
+            }
+            let mut j = String::from("{\n");
+            j.push_str(&format!(" \"property\": {},\n", jstr(prop)));
+            j.push_str(&format!(" \"feature_set\": {},\n", jstr(if cfg!(feature = "full") { "default" } else { "no-default-features" })));
+            j.push_str(&format!(" \"seed\": {},\n \"evaluations\": {},\n \"compared_with_model\": {},\n \"oracle_evaluations\": {},\n \"distinct_nontrivial\": {},\n", seed, ctx.evaluations, ctx.compared, ctx.oracle_evals, ctx.keys.len()));
+            j.push_str(&format!(" \"n_disagreements\": {},\n \"n_oracle_failures\": {},\n", ctx.n_disagreements, ctx.n_oracle_fails));
+            j.push_str(" \"disagreements\": [");
+            j.push_str(&ctx.disagreements.iter().map(|d| format!("{{\"call\": {}, \"request\": {}, \"real\": {}, \"model\": {}}}", jstr(&d.desc), jstr(&d.req), jstr(&d.real), jstr(&d.model))).collect::<Vec<_>>().join(",\n  "));
+            j.push_str("],\n \"oracle_failures\": [");
+            j.push_str(&ctx.oracle_fails.iter().map(|d| format!("{{\"clause\": {}, \"case\": {}}}", jstr(&d.clause), jstr(&d.desc))).collect::<Vec<_>>().join(",\n  "));
+            j.push_str("],\n \"known_findings_seen\": {");
+            j.push_str(&ctx.known_seen.iter().map(|(k, v)| format!("{}: {{\"count\": {}, \"example\": {}}}", jstr(k), v.0, jstr(&v.1))).collect::<Vec<_>>().join(", "));
+            j.push_str("},\n \"histogram\": {");
+            j.push_str(&ctx.hist.iter().map(|(k, v)| format!("{}: {}", jstr(k), v)).collect::<Vec<_>>().join(", "));
+            j.push_str("},\n \"samples\": [");
+            j.push_str(&ctx.samples.iter().map(|s| jstr(s)).collect::<Vec<_>>().join(", "));
+            j.push_str("]\n}\n");
+            std::fs::write(out, j).expect("write result");
+        }
         _ => {
-            eprintln!("usage: twharness gen-tables DIR | run ...");
+            eprintln!("usage: twharness gen-tables DIR | run --prop Cxx --tier quick|thorough --seed N --driver PATH --out FILE [--known FILE]");
             std::process::exit(2);
         }
     }
